@@ -96,13 +96,16 @@ def apply_op(eng, tr, op):
         tr.auto_pending = True
         tr.created.append(jid)
         tr.meta[jid] = (op[1], 0)
-    elif k == "readd":
+    elif k in ("readd", "readdx"):
         if op[1] not in tr.meta:
             return False
         c = tr.idle_client()
         if c is None:
             return False
         ch, pr = tr.meta[op[1]]
+        if k == "readdx":
+            # the same id named again under the other channel: still the existing job
+            ch = "b" if ch == "a" else "a"
         eng.send(c, "qadd", channel=ch, priority=pr, jobid=op[1])
     elif k == "pull":
         if not tr.idle(op[1]):
@@ -203,6 +206,8 @@ def enabled_ops(eng, tr, alphabet, last_op):
                 ops.append(["finx", jid])
             if "readd" in A:
                 ops.append(["readd", jid])
+            if "readdx" in A:
+                ops.append(["readdx", jid])
             if "wait" in A:
                 ops.append(["wait", jid])
             if "setinfo" in A:
@@ -365,7 +370,7 @@ def random_history(rnd, alphabet, length, maxjobs, rendezvous_bias=0.5):
         elif x < 0.90:
             ops.append(["disc", rnd.choice(WORKERS)])
         elif njobs:
-            extra = [k for k in ("finx", "readd", "wait", "setinfo", "restart", "addauto") if k in A]
+            extra = [k for k in ("finx", "readd", "readdx", "wait", "setinfo", "restart", "addauto") if k in A]
             if not extra:
                 continue
             k = rnd.choice(extra)
